@@ -2202,20 +2202,35 @@ func (w *Writer) writeUnpack4x8(mathExpr ir.ExprMath) error {
 	} else {
 		// Metal < 2.1: bit manipulation expansion
 		// (int4(arg, arg >> 8, arg >> 16, arg >> 24) << 24 >> 24)
+		// The operand is shifted below: written inline, a binary expression or a select
+		// needs its own parentheses (`(a ^ b) >> 8`, not `a ^ b >> 8`).
+		writeArg := func() error {
+			parens := w.needsParensInContext(mathExpr.Arg)
+			if parens {
+				w.write("(")
+			}
+			if err := w.writeExpression(mathExpr.Arg); err != nil {
+				return err
+			}
+			if parens {
+				w.write(")")
+			}
+			return nil
+		}
 		w.write("(%sint4(", signPrefix)
-		if err := w.writeExpression(mathExpr.Arg); err != nil {
+		if err := writeArg(); err != nil {
 			return err
 		}
 		w.write(", ")
-		if err := w.writeExpression(mathExpr.Arg); err != nil {
+		if err := writeArg(); err != nil {
 			return err
 		}
 		w.write(" >> 8, ")
-		if err := w.writeExpression(mathExpr.Arg); err != nil {
+		if err := writeArg(); err != nil {
 			return err
 		}
 		w.write(" >> 16, ")
-		if err := w.writeExpression(mathExpr.Arg); err != nil {
+		if err := writeArg(); err != nil {
 			return err
 		}
 		w.write(" >> 24) << 24 >> 24)")
